@@ -102,6 +102,24 @@ def check_copy(g, cpath, acc):
     po = gtree.parents_ok(C, expect_root_parent_none=False)
     if po is not None:
         bad("copy_parent_links", "parents below the copy's root point inside the copy", po)
+    # a second copy of the same node, and a copy of the copy: ids stay fresh and earlier copies stay registered
+    try:
+        C2 = N.copy()
+        C3 = C.copy()
+        all_ids = orig_ids + cids + [x.id for x in gtree.preorder(C2)] + [x.id for x in gtree.preorder(C3)]
+        if len(set(all_ids)) != len(all_ids):
+            bad("copy_ids_not_fresh", "ids of a second copy / a copy of the copy are fresh too", "collision")
+        for tree in (C, C2, C3, T):
+            for x in gtree.preorder(tree):
+                if Node.get_node_instance(x.id) is not x:
+                    bad("copy_not_registered", "every copy and the original stay registered", x.id)
+                    break
+        for other in (C2, C3):
+            d2 = gtree.snap_diff(gtree.snap(N, with_id=False), gtree.snap(other, with_id=False))
+            if d2:
+                bad("copy_not_equal", {"path": d2[0], "field": d2[1], "value": d2[2]}, d2[3], field=d2[1])
+    except Exception as e:  # noqa
+        bad("copy_raised", "a second copy", repr(e))
     # independence: one edit at a time on either side
     copy_paths = [p for p, _ in gtree.walk(gtree.at(g, cpath))]
     tree_paths = [p for p, _ in gtree.walk(g)]
